@@ -28,7 +28,8 @@ class LambdaTokenTranslator(AbstractTranslator):
                         condition_symbol = '!='
 
                 if parsed_literal[1]:
-                    condition_value = parsed_literal[1]
+                    condition_value = str(float(parsed_literal[1]) if parsed_literal[5] or parsed_literal[7]
+                                          else int(parsed_literal[1]))
                 else:
                     condition_value = expression
 
